@@ -23,6 +23,10 @@ CORPUS = [
     "from nada_dsl import *\ndef nada_main():\n    p = Party(name='P')\n    p(1)\n    l = []\n    l.append(undefined)\n    q: list[int] = [1]\n    q(2)\n",
     "", "\n\n", "def", "x = = 1\n", "\t\tweird\n  indentation\n", "from nada_dsl import *\n" + "(" * 50 + "1" + ")" * 50,
     "from nada_dsl import *\ndef nada_main():\n    d = -a\n    e = not(a)\n    f = -\\\n      1\n",
+    # integer literals longer than the interpreter's int -> str digit limit (legal in hexadecimal / octal / binary notation)
+    "from nada_dsl import *\nMASK = 0x" + "f" * 4096 + "\ndef nada_main():\n    k = 0b1" + "0" * 15000 + "\n    return []\n",
+    "from nada_dsl import *\ndef nada_main():\n    p = Party(name='P')\n    a = SecretInteger(Input(name='a', party=p))\n    b = a + Integer(0o7" + "1" * 5000
+    + ")\n    l = [0x" + "ab" * 2100 + ", 1]\n    return [Output(b, 'o', p)]\n",
 ]
 
 
